@@ -1242,7 +1242,7 @@ pub fn property() -> Property {
     Property {
         id: "C18",
         level: "exploration",
-        rule: "generated: histories of 0..7 operations {create, delete, set_exports(All|None|Specific[1..2 x (Rule|All|Template, pattern)]), add_rule, import(to, from, 5 import types, pattern in {*, r*, *1, exact name}, optional re-export clause)} over module names {A,B,C,MAIN} and rule names {r1,r12,qr1}. Part random: byte-decoded histories biased towards existing modules and towards delete-of-imported / re-create / import-back. Part all-fresh: EVERY history of length <= 4 (thorough 5) over a 45-operation alphabet on {A,B,MAIN} from the fresh manager. Parts eff-*: every history of operations addressing existing modules (the others are refused no-ops, covered by all-fresh): length <= 5 (thorough 6) from the fresh manager, length <= 4 (thorough 5) after `create A; create B`, and length <= 4 over a 35-operation create/delete/import alphabet on {A,B,C,MAIN} after three creates. Each reachable state of an exhaustive tree is judged once (by the leaf that extends it with first choices only). Oracle: import declarations observed through get_imports() must follow the allowed transitions (accepted import appends exactly that declaration; refused import changes neither declarations nor graph; a self-import or an import whose source already reaches the target through declarations between existing modules must be refused); in every judged state the declared import relation among existing modules is acyclic and equals get_import_graph restricted to existing modules, is_rule_visible/get_visible_rules/is_template_visible return Ok for every existing module, and without re-export clauses is_rule_visible and get_visible_rules equal the model (owns, or rule-type import with matching pattern from an existing module that owns the rule and whose export list matches it); with re-export clauses only the bounds (model-visible => visible => owns or some rule import pattern matches) are judged. Part dags: EVERY acyclic import graph on 4 and on 5 modules is built by accepted imports and every ordered pair is tried as a further import on 4 fresh managers each (the cycle search walks hash sets): refused exactly when it is a self import or closes a cycle through the declarations, a refusal changes nothing. Non-trivial: the judged part of the history (random: all of it; exhaustive leaf: the steps from its last non-first choice on) contains a delete of a module that another existing module imports, an import refused because it would close a cycle (self-import included), or a re-create of a deleted module; distinct by operation sequence.",
+        rule: "generated: histories of 0..7 operations {create, delete, set_exports(All|None|Specific[1..2 x (Rule|All|Template, pattern)]), add_rule, import(to, from, 5 import types, pattern in {*, r*, *1, exact name}, optional re-export clause)} over module names {A,B,C,MAIN} and rule names {r1,r12,qr1}. Part random: byte-decoded histories biased towards existing modules and towards delete-of-imported / re-create / import-back. Part all-fresh: EVERY history of length <= 4 (thorough 5) over a 45-operation alphabet on {A,B,MAIN} from the fresh manager. Parts eff-*: every history of operations addressing existing modules (the others are refused no-ops, covered by all-fresh): length <= 5 (thorough 6) from the fresh manager, length <= 4 (thorough 5) after `create A; create B`, and length <= 4 over a 35-operation create/delete/import alphabet on {A,B,C,MAIN} after three creates. Each reachable state of an exhaustive tree is judged once (by the leaf that extends it with first choices only). Oracle: import declarations observed through get_imports() must follow the allowed transitions (accepted import appends exactly that declaration; refused import changes neither declarations nor graph; a self-import or an import whose source already reaches the target through declarations between existing modules must be refused); in every judged state the declared import relation among existing modules is acyclic and equals get_import_graph restricted to existing modules, is_rule_visible/get_visible_rules/is_template_visible return Ok for every existing module, and without re-export clauses is_rule_visible and get_visible_rules equal the model (owns, or rule-type import with matching pattern from an existing module that owns the rule and whose export list matches it); with re-export clauses only the bounds (model-visible => visible => owns or some rule import pattern matches) are judged. Part dags: EVERY acyclic import graph on 4 and on 5 modules is built by accepted imports and every ordered pair is tried as a further import on 4 fresh managers each (the cycle search walks hash sets): refused exactly when it is a self import or closes a cycle through the declarations, a refusal changes nothing. Non-trivial: the judged part of the history (random: all of it; exhaustive leaf: the steps from its last non-first choice on) contains a delete of a module that another existing module imports, an import refused because it would close a cycle (self-import included), or a re-create of a deleted module; distinct by operation sequence. The object under test is built with new() or with default() in turn (by a hash of the case's data, no draw).",
         assumptions: vec![
             format!(
                 "known-finding exclusion F1 (deletes of imported modules become no-ops) is {} on this tree",
